@@ -193,7 +193,7 @@ fn op(u: &mut Unstructured) -> R<Op> {
         }
         34..=36 => Op::TriggerGrowth { s },
         37 => Op::Advance { s, n: 1 + n(u, 4)? as u8 },
-        38 => Op::RemoveOld { s, how: n(u, 4)? as u8, keep: n(u, 11)? as u8 },
+        38 => if n(u, 2)? == 0 { Op::LingerFull { s } } else { Op::RemoveOld { s, how: n(u, 4)? as u8, keep: n(u, 11)? as u8 } },
         39 => if n(u, 1)? == 0 { Op::RemoveAll { s } } else { Op::TightShrink { s, over: b(u)? } },
         40 => Op::SetPoint { s, k: keysel(u)?, which: n(u, 8)? as u8 },
         41 => Op::SetMisc { s, which: n(u, 4)? as u8, arg: caparg(u)? },
